@@ -73,6 +73,8 @@ def truths_single(k):
     if k >= 2:
         t.append([0, 1])
     t.append(["oov", k - 1])
+    if k < 3:
+        t.append(["oov2"])
     return t
 
 
@@ -193,7 +195,13 @@ def run_block(block, rec):
 
 # ---------------------------------------------------------------- building inputs
 def tagobj(t, V):
-    return OOV if t == "oov" else V[t]
+    if t == "oov":
+        return OOV
+    if t == "oov2":
+        # a tag that is out of THIS vocabulary but belongs to the larger vocabularies used by other cases in the same process
+        # (encoder state kept between evaluations would map it into the vocabulary)
+        return vocab(3)[len(V)] if len(V) < 3 else OOV
+    return V[t]
 
 
 def ptags(vec, V):
